@@ -142,6 +142,8 @@ def simplify_test(e: ast.expr) -> ast.expr:
         if inner is not e.operand:
             return _loc(ast.UnaryOp(op=ast.Not(), operand=inner), e)  # type: ignore[return-value]
         return e
+    if isinstance(e, ast.Call) and isinstance(e.func, ast.Name) and e.func.id == "bool" and len(e.args) == 1 and not e.keywords:
+        return simplify_test(e.args[0])  # bool(x) in a test position
     if isinstance(e, ast.IfExp):
         # boolean-valued conditional expressions in a test position
         t, a, b = e.test, e.body, e.orelse
@@ -162,6 +164,24 @@ def simplify_test(e: ast.expr) -> ast.expr:
                 vals.extend(sv.values)
             else:
                 vals.append(sv)
+        # isinstance(x, A) or isinstance(x, B)  ->  isinstance(x, (A, B))
+        if isinstance(e.op, ast.Or):
+            merged: List[ast.expr] = []
+            for v in vals:
+                prev = merged[-1] if merged else None
+                if (prev is not None and isinstance(v, ast.Call) and isinstance(prev, ast.Call) and isinstance(v.func, ast.Name) and v.func.id == "isinstance"
+                        and isinstance(prev.func, ast.Name) and prev.func.id == "isinstance" and len(v.args) == 2 and len(prev.args) == 2
+                        and ast.dump(v.args[0]) == ast.dump(prev.args[0]) and is_pure(v.args[0])):
+                    def types_of(t):
+                        return list(t.elts) if isinstance(t, ast.Tuple) else [t]
+                    tup = ast.Tuple(elts=types_of(prev.args[1]) + types_of(v.args[1]), ctx=ast.Load())
+                    merged[-1] = _loc(ast.Call(func=prev.func, args=[prev.args[0], tup], keywords=[]), prev)  # type: ignore[assignment]
+                else:
+                    merged.append(v)
+            if len(merged) != len(vals):
+                vals = merged
+                if len(vals) == 1:
+                    return vals[0]
         # neutral / absorbing boolean constants (test position: only the truth value matters)
         is_and = isinstance(e.op, ast.And)
         neutral = [v for v in vals if isinstance(v, ast.Constant) and v.value is (True if is_and else False)]
@@ -207,9 +227,35 @@ class _ExprCanon(ast.NodeTransformer):
                 return _loc(ast.Attribute(value=a.value, attr="children", ctx=ast.Load()), node)
         return node
 
+    def visit_JoinedStr(self, node: ast.JoinedStr):
+        self.generic_visit(node)
+        # f'{x}' -> str(x)   (format(x, '') is str(x) for the values this package formats)
+        if len(node.values) == 1 and isinstance(node.values[0], ast.FormattedValue) and node.values[0].conversion == -1 and node.values[0].format_spec is None:
+            return _loc(ast.Call(func=ast.Name(id="str", ctx=ast.Load()), args=[node.values[0].value], keywords=[]), node)
+        return node
+
+    def visit_BinOp(self, node: ast.BinOp):
+        self.generic_visit(node)
+        # x + (-k) -> x - k ;  x - (-k) -> x + k
+        r = node.right
+        neg = None
+        if isinstance(r, ast.UnaryOp) and isinstance(r.op, ast.USub):
+            neg = r.operand
+        elif isinstance(r, ast.Constant) and isinstance(r.value, (int, float)) and not isinstance(r.value, bool) and r.value < 0:
+            neg = _loc(ast.Constant(value=-r.value), r)
+        if neg is not None and isinstance(node.op, (ast.Add, ast.Sub)):
+            return _loc(ast.BinOp(left=node.left, op=ast.Sub() if isinstance(node.op, ast.Add) else ast.Add(), right=neg), node)
+        return node
+
     def visit_IfExp(self, node: ast.IfExp):
         self.generic_visit(node)
         node.test = simplify_test(node.test)
+        # True if c else False -> bool(c) ;  False if c else True -> not c
+        if isinstance(node.body, ast.Constant) and isinstance(node.orelse, ast.Constant):
+            if node.body.value is True and node.orelse.value is False:
+                return _loc(ast.Call(func=ast.Name(id="bool", ctx=ast.Load()), args=[node.test], keywords=[]), node)
+            if node.body.value is False and node.orelse.value is True:
+                return simplify_test(_loc(ast.UnaryOp(op=ast.Not(), operand=node.test), node))
         # [] if c is None else c  stays (the property itself)
         if isinstance(node.test, ast.UnaryOp) and isinstance(node.test.op, ast.Not):
             node.test, node.body, node.orelse = node.test.operand, node.orelse, node.body
@@ -228,6 +274,9 @@ class _ExprCanon(ast.NodeTransformer):
 
     def visit_Call(self, node: ast.Call):
         self.generic_visit(node)
+        # dict(a=x, b=y) -> {'a': x, 'b': y}
+        if isinstance(node.func, ast.Name) and node.func.id == "dict" and not node.args and node.keywords and all(k.arg is not None for k in node.keywords):
+            return _loc(ast.Dict(keys=[ast.Constant(value=k.arg) for k in node.keywords], values=[k.value for k in node.keywords]), node)
         # list(filter(lambda x: c, it)) -> [x for x in it if c]
         if (
             enabled("C7")
@@ -334,6 +383,18 @@ class BlockCanon:
                     setattr(st, holder, _Sub().visit(expr_))
                     stmts[i : i + 1] = [asg_, st]  # type: ignore[list-item]
                     continue
+            # ---- walrus in a later operand of an `and` test (no else):  if A and (x := E) op ...: B  ->  if A: x = E; if x op ...: B
+            if enabled("C5") and isinstance(st, ast.If) and not st.orelse and isinstance(st.test, ast.BoolOp) and isinstance(st.test.op, ast.And):
+                vals_ = st.test.values
+                k_ = next((j for j, v_ in enumerate(vals_) if j > 0 and _leading_walrus(v_) is not None), None)
+                if k_ is not None and not any(isinstance(x, ast.NamedExpr) for v_ in vals_[:k_] for x in ast.walk(v_)):
+                    self.changed = True
+                    head = vals_[0] if k_ == 1 else _loc(ast.BoolOp(op=ast.And(), values=vals_[:k_]), st)
+                    tail_ = vals_[k_] if k_ == len(vals_) - 1 else _loc(ast.BoolOp(op=ast.And(), values=vals_[k_:]), st)
+                    inner_ = _loc(ast.If(test=tail_, body=st.body, orelse=[]), st)
+                    stmts[i] = _loc(ast.If(test=head, body=[inner_], orelse=[]), st)  # type: ignore[assignment]
+                    self._no_merge = getattr(self, "_no_merge", set()) | {id(inner_)}
+                    continue
             # ---- C4 conditional expressions at statement level
             if enabled("C4"):
                 lifted = self._lift_ifexp(st)
@@ -386,7 +447,8 @@ class BlockCanon:
                         stmts[i:] = [st]
                         continue
                 # ---- nested if merge (C2)
-                if enabled("C2") and not st.orelse and _only(st.body, lambda s: isinstance(s, ast.If) and not s.orelse):
+                if enabled("C2") and not st.orelse and _only(st.body, lambda s: isinstance(s, ast.If) and not s.orelse
+                                                               and not any(isinstance(x, ast.NamedExpr) for x in ast.walk(s.test))):
                     self.changed = True
                     inner = st.body[0]
                     st.test = simplify_test(_and(st.test, inner.test))  # type: ignore[attr-defined]
@@ -399,6 +461,19 @@ class BlockCanon:
                     self.changed = True
                     new_stmts, consumed = r
                     stmts[i : i + consumed] = new_stmts
+                    continue
+                # for i, T in enumerate(<genexp>, k): BODY  ->  i = k - 1; for T in <genexp>: i += 1; BODY   (then the genexp rule below)
+                if isinstance(st, ast.For) and not st.orelse and isinstance(st.iter, ast.Call) and isinstance(st.iter.func, ast.Name) and st.iter.func.id == "enumerate" \
+                        and st.iter.args and isinstance(st.iter.args[0], ast.GeneratorExp) and isinstance(st.target, ast.Tuple) and len(st.target.elts) == 2 \
+                        and isinstance(st.target.elts[0], ast.Name) and len(st.iter.args) <= 2 and not st.iter.keywords \
+                        and (len(st.iter.args) == 1 or (isinstance(st.iter.args[1], ast.Constant) and isinstance(st.iter.args[1].value, int))):
+                    start_ = st.iter.args[1].value if len(st.iter.args) == 2 else 0
+                    ivar = st.target.elts[0].id
+                    self.changed = True
+                    init_ = _loc(ast.Assign(targets=[ast.Name(id=ivar, ctx=ast.Store())], value=ast.Constant(value=start_ - 1)), st)
+                    inc_ = _loc(ast.AugAssign(target=ast.Name(id=ivar, ctx=ast.Store()), op=ast.Add(), value=ast.Constant(value=1)), st)
+                    loop_ = _loc(ast.For(target=st.target.elts[1], iter=st.iter.args[0], body=[inc_] + st.body, orelse=[]), st)
+                    stmts[i : i + 1] = [init_, loop_]  # type: ignore[list-item]
                     continue
                 # for T in (E for X in IT if C): BODY  ->  for X in IT: [if C:] T = E; BODY
                 if isinstance(st, ast.For) and not st.orelse and isinstance(st.iter, ast.GeneratorExp) and len(st.iter.generators) == 1 \
@@ -1180,10 +1255,12 @@ def _returns(block) -> List[ast.Return]:
     return out
 
 
-def _tail_to(block: List[ast.stmt], make) -> Optional[List[ast.stmt]]:
-    """Rewrite a block whose `return e` statements are all in tail position so
-    that each becomes make(e); None if some return is not in tail position.
-    Statements after a terminating `if` are moved into its else arm."""
+def _tail_to(block: List[ast.stmt], make, depth: int = 0) -> Optional[List[ast.stmt]]:
+    """Rewrite a block so that each `return e` becomes make(e) and nothing runs after it; None if that is not
+    possible (a return inside a loop / with / try).  What follows an `if` that returns in some arm only is moved
+    (copied) into the arms that fall through."""
+    if depth > 12:
+        return None
     out: List[ast.stmt] = []
     for i, st in enumerate(block):
         if isinstance(st, ast.Return):
@@ -1191,18 +1268,14 @@ def _tail_to(block: List[ast.stmt], make) -> Optional[List[ast.stmt]]:
             return out
         if isinstance(st, ast.If) and _returns([st]):
             rest = block[i + 1 :]
-            body = _tail_to(st.body, make)
-            if body is None:
-                return None
-            if terminates(st.body) or (rest and not st.orelse and _ends_in_return(st.body)):
-                orelse = _tail_to(list(st.orelse) + rest, make)
-            elif not rest:
-                orelse = _tail_to(list(st.orelse), make) if st.orelse else []
-            else:
-                return None
-            if orelse is None:
-                return None
-            new = ast.If(test=st.test, body=body or [ast.Pass()], orelse=orelse)
+            arms = []
+            for arm in (list(st.body), list(st.orelse)):
+                cont = arm if terminates(arm) and isinstance(arm[-1], (ast.Return, ast.Raise)) else arm + [copy.deepcopy(r_) for r_ in rest]
+                new_arm = _tail_to(cont, make, depth + 1)
+                if new_arm is None:
+                    return None
+                arms.append(new_arm)
+            new = ast.If(test=st.test, body=arms[0] or [ast.Pass()], orelse=arms[1])
             out.append(_loc(new, st))  # type: ignore[arg-type]
             return out
         if _returns([st]) and not isinstance(st, FuncNode):
@@ -1458,6 +1531,10 @@ class HelperInliner:
                 # the parameter is rebound in the callee, or the argument is not a pure expression:
                 # bind it to a local once (evaluation order of arguments is kept)
                 local = p if (p not in caller_names or (isinstance(v, ast.Name) and v.id == p)) else p + tag
+                if local != p and self._dead_after(fn, call, p):
+                    # the caller's own `p` is not read after the call (and the call is not in a loop):
+                    # rebinding it is unobservable, and it keeps the name the rest of the body is written with
+                    local = p
                 if isinstance(v, ast.Name) and v.id == local:
                     continue
                 names[p] = local
@@ -1476,6 +1553,16 @@ class HelperInliner:
                 if isinstance(n, (ast.expr, ast.stmt)):
                     ast.copy_location(n, call)
         return pre, body
+
+    @staticmethod
+    def _dead_after(fn, call: ast.Call, name: str) -> bool:
+        end = getattr(call, "end_lineno", getattr(call, "lineno", 0))
+        for n in ast.walk(fn):
+            if isinstance(n, (ast.For, ast.While, ast.AsyncFor)) and any(call is x for x in ast.walk(n)):
+                return False
+        later = [n for n in ast.walk(fn) if isinstance(n, ast.Name) and n.id == name and isinstance(n.ctx, ast.Load)
+                 and getattr(n, "lineno", 0) > end]
+        return not later
 
     def _inline_stmt(self, fn, st, call, mode, d, recv, bound) -> Optional[List[ast.stmt]]:
         prep = self._prepare(fn, d, call, recv, bound)
